@@ -2,14 +2,6 @@ package anytype
 
 // C17 — Sort orders in place without losing elements; Reverse is an involution.
 
-func hListWithSpare(n, spare int) *list {
-	l := NewListOf(nil, n+spare).(*list)
-	for i := 0; i < spare; i++ {
-		l.Pop()
-	}
-	return l
-}
-
 func H_C17_sort_ints() {
 	maxN := 3
 	if verifTier() > 0 {
@@ -49,5 +41,157 @@ func H_C17_sort_ints() {
 		}
 		verifAssert(cb == ca, "Sort keeps the multiset of elements")
 	}
+	verifReach("end")
+}
+
+func H_C17_sort_floats() {
+	maxN := 3
+	if verifTier() > 0 {
+		maxN = 4
+	}
+	verifBound("LISTN", maxN)
+	n := nondetIntRange(1, maxN)
+	l := hListWithSpare(n, nondetIntRange(0, 1))
+	in := make([]float64, n)
+	for i := 0; i < n; i++ {
+		in[i] = hNonNaNFloat() // +-Inf, +-0 included
+		l.Replace(i, in[i])
+	}
+	ret := l.Sort()
+	verifAssert(ret == List(l), "Sort returns the receiver")
+	verifAssert(l.Count() == n, "Sort keeps the length")
+	out := make([]float64, n)
+	for i := 0; i < n; i++ {
+		verifAssert(l.TypeOf(i) == TypeFloat, "sorted element is still a float")
+		out[i] = l.GetFloat(i)
+	}
+	for i := 0; i+1 < n; i++ {
+		verifAssert(out[i] <= out[i+1], "Sort yields non-decreasing order")
+	}
+	// multiset of bit patterns preserved (so -0 / +0 are not merged)
+	for i := 0; i < n; i++ {
+		cb, ca := 0, 0
+		bi := verifFloatBits(in[i])
+		for j := 0; j < n; j++ {
+			cb += verifIteInt(verifFloatBits(in[j]) == bi, 1, 0)
+			ca += verifIteInt(verifFloatBits(out[j]) == bi, 1, 0)
+		}
+		verifAssert(cb == ca, "Sort keeps the multiset of elements")
+	}
+	verifReach("end")
+}
+
+func H_C17_sort_strings() {
+	maxN := 3
+	verifBound("LISTN", maxN)
+	verifBound("STRBYTES", 2)
+	n := nondetIntRange(1, maxN)
+	l := hListWithSpare(n, nondetIntRange(0, 1))
+	in := make([]string, n)
+	for i := 0; i < n; i++ {
+		in[i] = hBytesStr(nondetIntRange(0, 2)) // bytewise order is what is specified; any bytes
+		l.Replace(i, in[i])
+	}
+	ret := l.Sort()
+	verifAssert(ret == List(l), "Sort returns the receiver")
+	verifAssert(l.Count() == n, "Sort keeps the length")
+	out := make([]string, n)
+	for i := 0; i < n; i++ {
+		verifAssert(l.TypeOf(i) == TypeString, "sorted element is still a string")
+		out[i] = l.GetString(i)
+	}
+	for i := 0; i+1 < n; i++ {
+		verifAssert(out[i] <= out[i+1], "Sort yields non-decreasing bytewise order")
+	}
+	for i := 0; i < n; i++ {
+		cb, ca := 0, 0
+		for j := 0; j < n; j++ {
+			cb += verifIteInt(in[j] == in[i], 1, 0)
+			ca += verifIteInt(out[j] == in[i], 1, 0)
+		}
+		verifAssert(cb == ca, "Sort keeps the multiset of elements")
+	}
+	// idempotence
+	l.Sort()
+	for i := 0; i < n; i++ {
+		verifAssert(l.GetString(i) == out[i], "sorting twice equals sorting once")
+	}
+	verifReach("end")
+}
+
+func H_C17_sort_idempotent_ints() {
+	n := nondetIntRange(1, 3)
+	l := NewList()
+	for i := 0; i < n; i++ {
+		l.Add(nondetInt())
+	}
+	l.Sort()
+	first := l.IntSlice()
+	l.Sort()
+	for i := 0; i < n; i++ {
+		verifAssert(l.GetInt(i) == first[i], "sorting twice equals sorting once")
+	}
+	verifReach("end")
+}
+
+// Sort on a list whose first element is neither string, int nor float panics and changes nothing.
+func H_C17_sort_panics() {
+	n := nondetIntRange(1, 3)
+	l := NewList()
+	var first any
+	switch nondetIntRange(0, 3) {
+	case 0:
+		first = nil
+	case 1:
+		first = nondetBool()
+	case 2:
+		first = NewList(nondetInt())
+	default:
+		first = NewObject("k", nondetInt())
+	}
+	l.Add(first)
+	for i := 1; i < n; i++ {
+		l.Add(hAnyScalar())
+	}
+	before := hSnapList(l, false)
+	p := verifCatch(func() { l.Sort() })
+	verifAssert(p, "Sort panics when the first element is not string/int/float")
+	verifAssert(hSameSlots(before, hSnapList(l, false)), "a panicking Sort leaves the list unchanged")
+	verifReach("end")
+}
+
+// Reverse: element i moves to n-1-i (identity of containers, value of scalars), in place.
+func H_C17_reverse() {
+	maxN := 5
+	if verifTier() > 0 {
+		maxN = 7
+	}
+	verifBound("LISTN", maxN)
+	n := nondetIntRange(0, maxN)
+	l := hListWithSpare(n, nondetIntRange(0, 1))
+	inner := NewList(1)
+	obj := NewObject("a", 1)
+	for i := 0; i < n; i++ {
+		switch nondetIntRange(0, 3) {
+		case 0:
+			l.Replace(i, nondetInt())
+		case 1:
+			l.Replace(i, hBytesStr(1))
+		case 2:
+			l.Replace(i, inner)
+		default:
+			l.Replace(i, obj)
+		}
+	}
+	before := hSnapList(l, false)
+	ret := l.Reverse()
+	verifAssert(ret == List(l), "Reverse returns the receiver")
+	after := hSnapList(l, false)
+	verifAssert(len(after.elem) == n, "Reverse keeps the length")
+	for i := 0; i < n; i++ {
+		verifAssert(hSameShallow(before.elem[i], after.elem[n-1-i]), "Reverse moves element i to n-1-i")
+	}
+	l.Reverse()
+	verifAssert(hSameSlots(before, hSnapList(l, false)), "Reverse twice restores the list")
 	verifReach("end")
 }
